@@ -998,6 +998,7 @@ enum {
 	ITER_METHOD_NORMAL,
 	ITER_METHOD_NEXT,
 	ITER_METHOD_LEFTMOST,
+	ITER_METHOD_EMPTY,
 };
 
 
@@ -1015,7 +1016,7 @@ iter_set_info(lzma_index_iter *iter)
 	if (group == NULL) {
 		// There are no groups.
 		assert(stream->groups.root == NULL);
-		iter->internal[ITER_METHOD].s = ITER_METHOD_LEFTMOST;
+		iter->internal[ITER_METHOD].s = ITER_METHOD_EMPTY;
 
 	} else if (i->streams.rightmost != &stream->node
 			|| stream->groups.rightmost != &group->node) {
@@ -1138,6 +1139,10 @@ lzma_index_iter_next(lzma_index_iter *iter, lzma_index_iter_mode mode)
 	const index_group *group = NULL;
 	size_t record = iter->internal[ITER_RECORD].s;
 
+	// True if the Stream had no Blocks when the iterator was positioned
+	// on it but Blocks have been appended to it since then.
+	bool was_empty = false;
+
 	// If we are being asked for the next Stream, leave group to NULL
 	// so that the rest of the this function thinks that this Stream
 	// has no groups and will thus go to the next Stream.
@@ -1156,6 +1161,15 @@ lzma_index_iter_next(lzma_index_iter *iter, lzma_index_iter_mode mode)
 		case ITER_METHOD_LEFTMOST:
 			group = (const index_group *)(
 					stream->groups.leftmost);
+			break;
+
+		case ITER_METHOD_EMPTY:
+			// The Stream was empty. If it still is, group
+			// will be NULL. Otherwise the first Record of
+			// the first group is the next one to return.
+			group = (const index_group *)(
+					stream->groups.leftmost);
+			was_empty = group != NULL;
 			break;
 		}
 	}
@@ -1178,6 +1192,13 @@ again:
 
 		// Start from the first Record in the Stream.
 		group = (const index_group *)(stream->groups.leftmost);
+		record = 0;
+
+	} else if (was_empty) {
+		// Blocks were appended to a Stream that was empty when
+		// the iterator was positioned on it. Start from
+		// the first Record.
+		was_empty = false;
 		record = 0;
 
 	} else if (group != NULL && record < group->last) {
